@@ -42,6 +42,7 @@ class Scenario:
 
 
 FAULT_KINDS = {"create", "wopen", "rename", "remove", "mkdir", "lock", "ropen"}
+DEST_CLASS = {"create", "wopen", "rename", "mkdir"}
 
 
 class _LocalManager:
@@ -155,6 +156,12 @@ class ScenarioRunner:
                 self._fault_count += 1
                 if self._fault_count == self._fault[1]:
                     self._fault_fired = op.describe(root)
+                    if len(self._fault) > 3 and self._fault[3] and op.kind in DEST_CLASS:
+                        # the failure persists for that destination (as in the single-call fault engine): putting a
+                        # file there by another route (shutil.move's copy fall-back) fails as well
+                        self._fault_dest = op.path2 or op.path
+                    raise probe.errno_error(self._fault[2], op)
+                if self._fault_dest is not None and op.kind in DEST_CLASS and (op.path2 or op.path) == self._fault_dest:
                     raise probe.errno_error(self._fault[2], op)
         # staging discipline (C09): a file in a tmp directory belongs to the call that created it until it is
         # renamed away or removed; a second thread opening the same staging file for writing would publish a mix
@@ -267,6 +274,7 @@ class ScenarioRunner:
         self._fault = fault           # (worker index, k-th eligible operation of that worker, errno) or None
         self._fault_count = -1
         self._fault_fired = None
+        self._fault_dest = None
         sch = S.Scheduler([make(i) for i in idxs], chooser, self.rundir, is_yield_op=self.is_yield_op,
                           observer=observer, pre_hook=self.removal_monitor)
         holder["s"] = sch
@@ -559,7 +567,7 @@ def hygiene_problems(runner, ob):
     return probs
 
 
-def explore_with_faults(runner, rng, bound, n_random, errno_code):
+def explore_with_faults(runner, rng, bound, n_random, errno_code, dfs_cap=400, site_filter=None, persistent=False):
     """For each call of the scenario and each fault site of that call: schedules (preemption-bounded DFS + random) in
     which that one operation fails with an OSError while the other call runs concurrently. Yields
     (observation, problems, faulted worker, site)."""
@@ -567,20 +575,23 @@ def explore_with_faults(runner, rng, bound, n_random, errno_code):
     for wk in range(ncalls):
         k = 0
         while True:
-            ob = runner.run(S.OrderChooser([1 - wk if ncalls == 2 else (wk + 1) % ncalls, wk]), fault=(wk, k, errno_code))
+            ob = runner.run(S.OrderChooser([1 - wk if ncalls == 2 else (wk + 1) % ncalls, wk]), fault=(wk, k, errno_code, persistent))
             if ob.fault_fired is None:
                 break           # the call has fewer than k+1 fault sites
             yield ob, hygiene_problems(runner, ob), wk, k
+            if site_filter is not None and not site_filter(ob.fault_fired):
+                k += 1
+                continue        # (only the plain run for sites outside the caller's focus)
             stack = [[]] if bound > 0 else []
             n = 0
-            while stack and n < 400:
+            while stack and n < dfs_cap:
                 prefix = stack.pop()
-                ob = runner.run(S.PrefixChooser(prefix), fault=(wk, k, errno_code))
+                ob = runner.run(S.PrefixChooser(prefix), fault=(wk, k, errno_code, persistent))
                 n += 1
                 yield ob, hygiene_problems(runner, ob), wk, k
                 for p in S.dfs_prefixes(ob.points, len(prefix), 0, bound):
                     stack.append(p)
             for _ in range(n_random):
-                ob = runner.run(S.RandomChooser(rng, rng.choice([0.1, 0.3, 0.5])), fault=(wk, k, errno_code))
+                ob = runner.run(S.RandomChooser(rng, rng.choice([0.1, 0.3, 0.5])), fault=(wk, k, errno_code, persistent))
                 yield ob, hygiene_problems(runner, ob), wk, k
             k += 1
